@@ -310,11 +310,15 @@ def build_interest(rng, prefix, seq, app, signer_kind, digest_mode):
             del comps[idx]
         elif digest_mode == 'short':
             comps[idx] = rc.comp(2, v[:31])
+        elif digest_mode == 'trailer':
+            pass        # name unchanged: an unrecognised non-critical element is appended below, which the digest then does not cover
         # re-encode the Interest with the edited name, everything else byte-identical
         buf = wire
         _, vs, ve = rc.outer(buf, 5)
         kids = rc.children(buf, vs, ve)
         body = rc.enc_name(comps) + buf[kids[0][3]:ve]
+        if digest_mode == 'trailer':
+            body += rc.enc_tlv(0xF0, b'appended-after-the-digest-was-computed')
         wire = rc.enc_tlv(5, body)
     return wire
 
@@ -327,7 +331,7 @@ def check_interest_side(ctx, rng):
         matrix = []
         for app in ('absent', 'empty', 'nonempty'):
             for sk in ('unsigned', 'digest', 'hmac', 'ecdsa'):
-                for dm in ('ok', 'bitflip', 'missing', 'short'):
+                for dm in ('ok', 'bitflip', 'missing', 'short', 'trailer'):
                     if app == 'absent' and sk == 'unsigned' and dm != 'ok':
                         continue
                     matrix.append((app, sk, dm))
@@ -564,6 +568,16 @@ def check_validator_in_force(ctx, rng):
                 n4 = await signed(Q2)
                 n5 = await signed(P2)
                 out.append(('nested-no-validator', n4, n5))
+                n6 = None
+                if fe == 'v1':
+                    # (4) legacy: the application-wide default validator is looked up when the Interest arrives, not when the filter
+                    # was set: a route without own validator set while a permissive default was in place obeys the stricter one later
+                    the_app.int_validator = validator('early-permissive-default', True)
+                    P4 = [C(b'late%d' % rep)]
+                    attach(P4, handler('route-without-validator'), None)
+                    the_app.int_validator = validator('late-strict-default', False)
+                    n6 = await signed(P4)
+                out.append(('default-replaced-later', n6))
                 res['out'] = out
                 the_app.shutdown()
                 await asyncio.wait_for(main_task, 5)
@@ -587,6 +601,10 @@ def check_validator_in_force(ctx, rng):
                            'prefix accepted it' if ('v', 'zone-accept', n4) in log else 'a signed Interest reached a handler although no validator in force for its prefix accepted it', w)
             if ('h', 'zone', n5) not in log:
                 ctx.event('observation:accepted-signed-interest-not-delivered')
+            n6 = res['out'][3][1]
+            if n6 is not None and ('h', 'route-without-validator', n6) in log:
+                ctx.report(f'delivered-despite-default-validator-in-force:{fe}', 'a signed Interest reached a route without own validator although the application-wide default '
+                           'validator in force when it arrived rejects it (the default of the time the filter was set was used)', w)
             n3 = res['out'][1][1]
             if ('h', 'outer', n3) in log:
                 ctx.report(f'delivered-to-handler-whose-validator-did-not-accept:{fe}', 'an Interest validated for the (meanwhile detached) longer prefix was handed to the handler of the '
